@@ -288,12 +288,16 @@ class Group(_Node):
         return self._mk(path, _N(True))
 
     def create_dataset(self, path, shape=None, dtype=None, data=None, **kw):
+        self._file._w()
+        if path is None:  # anonymous dataset: exists in the file, linked nowhere (until assigned to a name)
+            if data is None and shape is None:
+                raise TypeError("One of data, shape or dtype must be specified")
+            return Dataset(self._file, None, _N(False, _store_ds(data)))
+        segs = _segs(self._abs(path))
+        if len(segs) > 1:  # h5py: parent obtained through require_group (before the value is looked at)
+            self.require_group("/" + "/".join(segs[:-1]))
         if data is None and shape is None:
             raise TypeError("One of data, shape or dtype must be specified")
-        self._file._w()
-        segs = _segs(self._abs(path))
-        if len(segs) > 1:  # h5py: parent obtained through require_group
-            self.require_group("/" + "/".join(segs[:-1]))
         return self._mk(path, _N(False, _store_ds(data)))
 
     def __setitem__(self, path, val):
@@ -302,6 +306,8 @@ class Group(_Node):
             return
         if isinstance(val, (SoftLink, ExternalLink)):
             raise NotImplementedError("links are not modelled")
+        if val is None:  # h5py: anonymous dataset is created first -> fails before anything is linked
+            raise TypeError("One of data, shape or dtype must be specified")
         self._mk(path, _N(False, _store_ds(val)), OSError)
 
     def __delitem__(self, path):
